@@ -374,15 +374,33 @@ def gen_case(r, wild=None):
     if wild is None:
         wild = r.chance(0.45)
     fill_refs(r, g, tree, names, builtins, table, wild)
-    return finish_case(g, tree, builtins, "wild" if wild else "valid")
+    return finish_case(g, tree, builtins, "wild" if wild else "valid", other=r.chance(0.4))
 
 
-def finish_case(g, tree, builtins, stream):
+def strip_refs(o):
+    o = dict(o)
+    for k in ("ref", "refs", "uses"):
+        if k in o:
+            o[k] = None if k == "ref" else []
+    if o.get("sub") is not None:
+        o["sub"] = strip_refs(o["sub"])
+    for k in ("kids", "items"):
+        if k in o:
+            o[k] = [strip_refs(x) for x in o[k]]
+    return o
+
+
+def finish_case(g, tree, builtins, stream, other=False):
     table = class_table(g)
     text, refs = render(g, tree)
-    return {"g": g, "grammar": grammar_text(g), "table": table, "class_names": [n for n, _, _ in table],
+    case = {"g": g, "grammar": grammar_text(g), "table": table, "class_names": [n for n, _, _ in table],
             "tree": tree, "builtins": builtins, "text": text, "refs": refs, "stream": stream,
             "user": g.get("user", []), "pysup": pysup_of(g)}
+    if other:
+        # a second model of the same metamodel with the same objects (same names and classes) and no references,
+        # loaded first and kept alive: were it searched, every resolvable name would become ambiguous
+        case["other_text"] = render(g, strip_refs(tree))[0]
+    return case
 
 
 # ------------------------------------------------------------------ corpus (corpus/C07/*.json, run first)
@@ -616,6 +634,65 @@ def oracle(case, o):
     return "reference #%d must fail with a 'not unique' error for %s, got %r" % (at, r["name"], msg)
 
 
+def oracle_nomm(case, o):
+    """PlainName(multi_metamodel_support=False) - not the default provider, no Coq model: oracle only.  The lookup goes
+    through parser._instances (objects by exact class and name) along _tx_inh_by; the part of the property that does not
+    depend on the variant is demanded: a reference whose target is not OBJECT resolves to SOME object of the model whose
+    name is the reference text and whose class conforms when there is one (no uniqueness check in this variant), else
+    to the conforming builtins entry, else loading fails with the 'Unknown object' error located at such a reference."""
+    if "harness" in o:
+        return None
+    R = reach(case["table"])
+    objs = list(preorder(case["tree"]))
+    bmap = {e["key"]: e for e in (case["builtins"] or [])}
+    vs = []
+    for rf in case["refs"]:
+        cands = [] if rf["target"] == "OBJECT" else ["/" + "/".join(map(str, p)) for p, ob in objs if isinstance(ob["name"], str) and ob["name"]
+                                                     and ob["name"] == rf["name"] and conforms(R, [ob["cls"]], rf["target"])]
+        b = bmap.get(rf["name"])
+        if cands:
+            vs.append(cands)
+        elif b is not None and conforms(R, directs(case, b["cls"], b["kind"]), rf["target"]):
+            vs.append(["b:" + rf["name"]])
+        else:
+            vs.append(None)
+    failing = [i for i, v in enumerate(vs) if v is None]
+    if "ok" in o:
+        if failing:
+            rf = case["refs"][failing[0]]
+            return "[multi_metamodel_support=False] reference #%d (%s of class %s) has no candidate and no conforming builtin, but the model loaded" % (failing[0], rf["name"], rf["target"])
+        if len(o["ok"]) != len(vs) or any(t not in v for t, v in zip(o["ok"], vs)):
+            return "[multi_metamodel_support=False] resolved targets %r are not among the candidates %r" % (o["ok"], vs)
+        return None
+    e = o["err"]
+    if e["cls"] != "TextXSemanticError":
+        return "[multi_metamodel_support=False] loading must succeed or fail with a TextXSemanticError, got %s: %s" % (e["cls"], e["message"])
+    if not failing:
+        return "[multi_metamodel_support=False] every reference has a candidate or a conforming builtin, but loading failed: %r" % e["message"]
+    ok = any(e["err_type"] == "Unknown object" and '"%s"' % case["refs"][i]["name"] in (e["message"] or "")
+             and (e["line"], e["col"]) == (case["refs"][i]["line"], case["refs"][i]["col"]) for i in failing)
+    return None if ok else "[multi_metamodel_support=False] the error %r at %s:%s is not the Unknown-object failure of a reference without candidate" % (e["message"], e["line"], e["col"])
+
+
+def run_nomm(chk, cases, failures, disagreements):
+    for c in cases:
+        c["nomm"] = True
+    chunks = [c for c in (cases[i::core.NPROC] for i in range(core.NPROC)) if c]
+    outs = core.run_impl_parallel("c07", [{"cases": [{k: c[k] for k in ("grammar", "text", "builtins", "class_names", "user", "other_text", "nomm") if k in c} for c in ch]} for ch in chunks])
+    for ch, out in zip(chunks, outs):
+        for c, o in zip(ch, out):
+            chk.stat("stream=multi_metamodel_support=False (oracle only)")
+            hp = harness_problem(c, o)
+            if hp:
+                disagreements.append({"case": public(c), "impl": o, "model": None, "what": "harness/glue: " + hp})
+                continue
+            adopt_metamodel_table(c, o)
+            chk.stat("nomm outcome=" + ("ok" if "ok" in o else o["err"]["cls"]))
+            bad = oracle_nomm(c, o)
+            if bad:
+                failures.append({"case": public(c), "impl": o, "model": None, "what": bad, "tags": []})
+
+
 def case_key(case):
     return json.dumps([case["table"], tree_of_case(case), [[e["key"], e["kind"], e["cls"]] for e in (case["builtins"] or [])] if case["builtins"] is not None else None,
                        [[rf["name"], rf["target"]] for rf in case["refs"]]], sort_keys=True)
@@ -627,7 +704,7 @@ def nontrivial(case):
 
 
 def public(case):
-    return {k: case[k] for k in ("grammar", "text", "builtins", "refs", "table", "stream", "class_names", "tree", "g", "intended_table", "user", "pysup") if k in case}
+    return {k: case[k] for k in ("grammar", "text", "builtins", "refs", "table", "stream", "class_names", "tree", "g", "intended_table", "user", "pysup", "other_text", "nomm") if k in case}
 
 
 def enumerated_cases():
@@ -671,7 +748,7 @@ def enumerated_cases():
 def run_cases(chk, cases, tag, failures, disagreements):
     chunks = [cases[i::core.NPROC] for i in range(core.NPROC)]
     chunks = [c for c in chunks if c]
-    outs = core.run_impl_parallel("c07", [{"cases": [{k: c[k] for k in ("grammar", "text", "builtins", "class_names", "user")} for c in ch]} for ch in chunks])
+    outs = core.run_impl_parallel("c07", [{"cases": [{k: c[k] for k in ("grammar", "text", "builtins", "class_names", "user", "other_text", "nomm") if k in c} for c in ch]} for ch in chunks])
     res = {}
     for ch, o in zip(chunks, outs):
         for c, x in zip(ch, o):
@@ -696,6 +773,8 @@ def run_cases(chk, cases, tag, failures, disagreements):
             chk.stat("refs resolved to builtins", sum(1 for x in want["ok"] if x.startswith("b:")))
         if _cyclic(c["table"]):
             chk.stat("cyclic inheritance graph")
+        if c.get("other_text"):
+            chk.stat("cases with another loaded model of the same metamodel holding the same names")
         if c["user"]:
             chk.stat("metamodels with user-supplied classes")
             plain = dict(c, pysup={})
@@ -737,6 +816,14 @@ def run(chk):
     for i in range(n):
         cases.append(gen_case(chk.rng.split(i)))
     run_cases(chk, cases, "C07", failures, disagreements)
+    # the other variant of the provider (lookup through parser._instances); metamodels without user classes
+    nomm, j = [], 0
+    while len(nomm) < (300 if chk.thorough else 70):
+        c = gen_case(chk.rng.split("nomm%d" % j))
+        j += 1
+        if not c["user"]:
+            nomm.append(c)
+    run_nomm(chk, nomm, failures, disagreements)
     if chk.thorough:
         en = enumerated_cases()
         chk.stat("enumerated cases", len(en))
@@ -762,7 +849,7 @@ def replay(rep):
     if not isinstance(case, dict) or "grammar" not in case:
         print(json.dumps(rep, indent=1))
         return 0
-    o = core.run_impl("c07", {"cases": [{k: case[k] for k in ("grammar", "text", "builtins", "class_names", "user")}]})[0]
+    o = core.run_impl("c07", {"cases": [{k: case[k] for k in ("grammar", "text", "builtins", "class_names", "user", "other_text", "nomm") if k in case}]})[0]
     vals, errs = core.coq_eval("C07r", IMPORTS, [coq_case(case)])
     print("grammar:\n" + case["grammar"])
     print("model text:\n" + case["text"])
@@ -770,6 +857,8 @@ def replay(rep):
     print("implementation:", json.dumps(o.get("ok", o.get("err", o))))
     print("model        :", vals[0], errs or "")
     print("demanded     :", json.dumps(expected(case)))
-    bad = oracle(case, o)
+    bad = oracle_nomm(case, o) if case.get("nomm") else oracle(case, o)
+    if case.get("nomm"):
+        print("(provider variant multi_metamodel_support=False: oracle only; the model line above is the default provider's)")
     print("property verdict:", "VIOLATED: " + bad if bad else "holds")
     return 1 if bad else 0
